@@ -7,6 +7,23 @@ import KmipModel.Lemmas.Encode
 namespace Kmip.Encode
 open Kmip
 
+/-- the value fields of a stored object fit the primitives they are written into -/
+structure ObjVals (o : Obj) : Prop where
+  otype : u32 o.otype = true
+  alg : optAll u32 o.alg = true
+  len : optAll (fun (l : Nat) => i32 (Int.ofNat l)) o.len = true
+  format : optAll u32 o.format = true
+  subtype : optAll u32 o.subtype = true
+  mask : optAll (fun (m : Nat) => i32 (Int.ofNat m)) o.mask = true
+  state : optAll u32 o.state = true
+  date : i64 (Int.ofNat o.initialDate) = true
+
+/-- at most 2^31 instances of each multi-valued attribute -/
+structure ObjCounts (o : Obj) : Prop where
+  names : o.names.length ≤ 2147483648
+  groups : o.groups.length ≤ 2147483648
+  appInfo : o.appInfo.length ≤ 2147483648
+
 /-- the fields of a stored object that are written into fixed-width TTLV types fit them; the multi-valued
 attributes have at most 2^31 instances (the Attribute Index is an Integer) -/
 structure ObjInRange (o : Obj) : Prop where
@@ -23,6 +40,11 @@ structure ObjInRange (o : Obj) : Prop where
   appInfo : o.appInfo.length ≤ 2147483648
 
 def StoreInRange (s : Store) : Prop := ∀ o ∈ s.objs, ObjInRange o
+
+theorem objInRange_iff (o : Obj) : ObjInRange o ↔ ObjVals o ∧ ObjCounts o :=
+  ⟨fun h => ⟨⟨h.otype, h.alg, h.len, h.format, h.subtype, h.mask, h.state, h.date⟩, ⟨h.names, h.groups, h.appInfo⟩⟩,
+   fun h => ⟨h.1.otype, h.1.alg, h.1.len, h.1.format, h.1.subtype, h.1.mask, h.1.state, h.1.date,
+             h.2.names, h.2.groups, h.2.appInfo⟩⟩
 
 /-- a value that is in range whatever the attribute's name (an Integer that is also an Interval) -/
 def avalStrong : AVal → Bool
@@ -85,8 +107,9 @@ def gotStrong (n : Nat) : Option Got → Prop
   | some (.single v) => avalStrong v = true
   | some (.multi vs) => vs.length ≤ n ∧ ∀ v ∈ vs, avalStrong v = true
 
-theorem getAttr_strong {o : Obj} {name : String} {g : Option Got} (ho : ObjInRange o) (h : getAttr o name = .ok g) :
-    gotStrong 2147483648 g := by
+theorem getAttr_gen {o : Obj} {name : String} {g : Option Got} {n : Nat} (ho : ObjVals o)
+    (hn : o.names.length ≤ n ∧ o.groups.length ≤ n ∧ o.appInfo.length ≤ n) (h : getAttr o name = .ok g) :
+    gotStrong n g := by
   unfold getAttr at h
   split at h
   · rename_i f hf
@@ -99,7 +122,7 @@ theorem getAttr_strong {o : Obj} {name : String} {g : Option Got} (ho : ObjInRan
     all_goals try simp only [pure, Except.pure, Except.ok.injEq] at h
     · subst h; exact (rfl : avalStrong (.text _) = true)
     · subst h
-      refine ⟨by simpa using ho.names, fun v hv => ?_⟩
+      refine ⟨by simpa using hn.1, fun v hv => ?_⟩
       obtain ⟨n, _, rfl⟩ := List.mem_map.1 hv
       rfl
     · subst h; exact ho.otype
@@ -141,15 +164,19 @@ theorem getAttr_strong {o : Obj} {name : String} {g : Option Got} (ho : ObjInRan
       · simp [ierr] at h
     · subst h; exact ho.date
     · subst h
-      refine ⟨by simpa using ho.groups, fun v hv => ?_⟩
+      refine ⟨by simpa using hn.2.1, fun v hv => ?_⟩
       obtain ⟨n, _, rfl⟩ := List.mem_map.1 hv
       rfl
     · subst h
-      refine ⟨by simpa using ho.appInfo, fun v hv => ?_⟩
+      refine ⟨by simpa using hn.2.2, fun v hv => ?_⟩
       obtain ⟨n, _, rfl⟩ := List.mem_map.1 hv
       rfl
     · subst h; exact (rfl : avalStrong (.bool _) = true)
   · simp only [pure, Except.pure, Except.ok.injEq] at h; subst h; trivial
+
+theorem getAttr_strong {o : Obj} {name : String} {g : Option Got} (ho : ObjInRange o) (h : getAttr o name = .ok g) :
+    gotStrong 2147483648 g :=
+  getAttr_gen ((objInRange_iff o).1 ho).1 ⟨ho.names, ho.groups, ho.appInfo⟩ h
 
 theorem getAttrsStep_in_range {c : Ctx} {ver : Nat} {o : Obj} {name : String} {as : List TAttr}
     (ho : ObjInRange o) (h : getAttrsStep c ver o name = .ok as) : ∀ a ∈ as, tattrInRange a = true := by
